@@ -11,7 +11,7 @@ CONDS = [
          'comments/CDATA/PI/declaration/doctype are not text; iframe content excluded in HTML',
          '60/300 seeded random trees (<= 8 elements, depth <= 3, text from {a, b, ab, ba, "a b", space, newline, empty}, '
          'all special node kinds, iframes; HTML and XML builders); search strings symbolic over {a, b, space, newline}, '
-         'len <= 2, lists of one or two', timeout={'quick': 110, 'thorough': 1800}, parts={'quick': 8, 'thorough': 16}),
+         'len <= 2, lists of one or two', timeout={'quick': 110, 'thorough': 900}, parts={'quick': 8, 'thorough': 16}),
     Cond('contains_api_ok', ':-soup-contains / -own / :contains (alias) / inside :not / with extra alternatives, through the '
          'real parser and select(), for 14 search strings (empty, spanning node boundaries, quotes, comma, backslash, '
          'escaped newline, non-ASCII)', '400/3000 seeded random trees; 14 strings x 7 forms', timeout={'quick': 100, 'thorough': 900},
